@@ -19,7 +19,9 @@ RULE = ("(a) exhaustive differential in C (probe/p12.c): {^,-}{\\<,-}literal{\\>
         "operator character (c); distinct by SHA-1 of the case")
 ASSUMPTIONS = ["lines are newline terminated", "comparisons in which the general engine hit its depth limit are discarded (hook counter)"]
 
-ALPHA = ["a", "B", "b", "A", "_", " ", "-", "é", "É", "日", "1", "x"]
+# (with @ ` ~ DEL and, in lines only, ^ CR ^A: pairs of non-letters that differ in bit 5 alone, which a folding shortcut would equate)
+ALPHA = ["a", "B", "b", "A", "_", " ", "-", "é", "É", "日", "1", "x", "@", "`", "~", "\x7f", "!"]
+LINE_ONLY = ["^", "\r", "\x01", "\x1f", "\x1e"]
 OPS = set("\\.*+?[]{}()$|^")
 
 
@@ -36,7 +38,8 @@ def pair_case(draw):
     lit = "".join(draw(st.lists(st.sampled_from(ALPHA), max_size=5)))
     pat = ("^" if draw(st.booleans()) else "") + ("\\<" if draw(st.booleans()) else "") + lit + \
         ("\\>" if draw(st.booleans()) else "") + ("$" if draw(st.booleans()) else "")
-    parts = draw(st.lists(st.one_of(st.sampled_from(ALPHA), st.just(lit), st.just(lit.swapcase())), max_size=7))
+    flip = "".join(chr(ord(ch) ^ 0x20) if 0x21 <= (ord(ch) ^ 0x20) < 0x80 or (ord(ch) ^ 0x20) in (1, 0x0d, 0x1e, 0x1f) else ch for ch in lit)
+    parts = draw(st.lists(st.one_of(st.sampled_from(ALPHA), st.sampled_from(ALPHA + LINE_ONLY), st.just(lit), st.just(lit.swapcase()), st.just(flip)), max_size=7))
     return {"kind": "pair", "pat": pat, "line": "".join(parts), "flags": draw(st.integers(0, 7)), "lit": lit}
 
 
